@@ -87,6 +87,63 @@ LAIsSignedPerm(m) ==
     /\ \A c \in 1..m.c : Cardinality({r \in 1..m.r : ~QIsZero(MAt(m, c, r))}) = 1
     /\ \A r \in 1..m.r : Cardinality({c \in 1..m.c : ~QIsZero(MAt(m, c, r))}) = 1
 
+\* ---------------------------------------------------------------- the same algebra on small native integers
+\* For matrices of small integers (the unimodular inputs of the property, where "all of these are
+\* exact") every quantity is a small integer, and the definitions are repeated on TLC's native
+\* integers (same Laplace / adjugate shape as LinQ's MDet / MAdj; MC_C10 checks on its states that
+\* both layers agree).  An n x n integer matrix is a tuple of n*n integers, column-major.
+LIAt(e, n, c, r) == e[(c - 1) * n + r]
+LIMinor(e, n, c0, r0) ==
+    [k \in 1..((n - 1) * (n - 1)) |-> LET c == ((k - 1) \div (n - 1)) + 1 r == ((k - 1) % (n - 1)) + 1
+                                      IN LIAt(e, n, IF c >= c0 THEN c + 1 ELSE c, IF r >= r0 THEN r + 1 ELSE r)]
+RECURSIVE LISumFrom(_, _)
+LISumFrom(t, i) == IF i > Len(t) THEN 0 ELSE t[i] + LISumFrom(t, i + 1)
+LISum(t) == LISumFrom(t, 1)
+RECURSIVE LIDet(_, _)
+LIDet(e, n) == IF n = 1 THEN e[1]
+               ELSE LISum([c \in 1..n |-> (IF c % 2 = 1 THEN 1 ELSE -1) * LIAt(e, n, c, 1) * LIDet(LIMinor(e, n, c, 1), n - 1)])
+LIAdj(e, n) == IF n = 1 THEN <<1>>
+               ELSE [k \in 1..(n * n) |-> LET c == ((k - 1) \div n) + 1 r == ((k - 1) % n) + 1
+                                          IN (IF (c + r) % 2 = 0 THEN 1 ELSE -1) * LIDet(LIMinor(e, n, r, c), n - 1)]
+LITranspose(e, n) == [k \in 1..(n * n) |-> LIAt(e, n, ((k - 1) % n) + 1, ((k - 1) \div n) + 1)]
+LIMul(a, b, n) == [k \in 1..(n * n) |-> LET c == ((k - 1) \div n) + 1 r == ((k - 1) % n) + 1
+                                        IN LISum([j \in 1..n |-> LIAt(a, n, j, r) * LIAt(b, n, c, j)])]          \* a * b
+LIMulVec(a, v, n) == [r \in 1..n |-> LISum([j \in 1..n |-> LIAt(a, n, j, r) * v[j]])]                        \* a * v
+LIVecMul(v, a, n) == [c \in 1..n |-> LISum([j \in 1..n |-> v[j] * LIAt(a, n, c, j)])]                        \* v * a
+LIScale(e, k) == [i \in 1..Len(e) |-> k * e[i]]
+LIIdentity(n) == [k \in 1..(n * n) |-> IF ((k - 1) \div n) = ((k - 1) % n) THEN 1 ELSE 0]
+LIInverseUni(e, n) == LIScale(LIAdj(e, n), LIDet(e, n))           \* inverse of a unimodular matrix: adj / det = det * adj (det = +-1)
+LIIsAffine(e, n) == \A c \in 1..n : LIAt(e, n, c, n) = (IF c = n THEN 1 ELSE 0)
+LIAffineFrom(lin, t, n) ==      \* n = size of lin; result (n+1) x (n+1)
+    [k \in 1..((n + 1) * (n + 1)) |-> LET c == ((k - 1) \div (n + 1)) + 1 r == ((k - 1) % (n + 1)) + 1
+                                      IN IF r = n + 1 THEN (IF c = n + 1 THEN 1 ELSE 0) ELSE IF c = n + 1 THEN t[r] ELSE LIAt(lin, n, c, r)]
+LILinearPart(e, n) == [k \in 1..((n - 1) * (n - 1)) |-> LIAt(e, n, ((k - 1) \div (n - 1)) + 1, ((k - 1) % (n - 1)) + 1)]
+LITranslation(e, n) == [r \in 1..(n - 1) |-> LIAt(e, n, n, r)]
+LIAffineInverseUni(e, n) ==     \* e affine n x n with unimodular linear part
+    LET li == LIInverseUni(LILinearPart(e, n), n - 1) IN LIAffineFrom(li, LIScale(LIMulVec(li, LITranslation(e, n), n - 1), -1), n - 1)
+LIToQ(e, n) == Mat(n, n, [i \in 1..(n * n) |-> QI(e[i])])
+LIVToQ(v) == [i \in 1..Len(v) |-> QI(v[i])]
+
+\* decoding of float / double bit patterns that hold an integer of magnitude < 2^11 (limbs least significant first);
+\* anything else (fractions, larger values, NaN, infinities, denormals) gives LINotInt
+LINotInt == 1000000
+LIPow2(k) == 2^k
+LISmallIntW(w) ==
+    IF Len(w) = 2 THEN
+        LET hi == w[2] sg == hi \div 32768 ex == (hi % 32768) \div 128 man == (hi % 128) * 65536 + w[1] IN
+        IF ex = 0 /\ man = 0 THEN 0
+        ELSE IF ex < 127 \/ ex > 137 THEN LINotInt
+        ELSE LET sh == 150 - ex full == 8388608 + man IN
+             IF full % LIPow2(sh) # 0 THEN LINotInt ELSE (IF sg = 1 THEN -1 ELSE 1) * (full \div LIPow2(sh))
+    ELSE
+        LET hi == w[4] sg == hi \div 32768 ex == (hi % 32768) \div 16 man == (hi % 16) * 65536 + w[3] IN
+        IF ex = 0 /\ man = 0 /\ w[2] = 0 /\ w[1] = 0 THEN 0
+        ELSE IF ex < 1023 \/ ex > 1033 \/ w[2] # 0 \/ w[1] # 0 THEN LINotInt
+        ELSE LET sh == 1043 - ex full == 1048576 + man IN
+             IF full % LIPow2(sh) # 0 THEN LINotInt ELSE (IF sg = 1 THEN -1 ELSE 1) * (full \div LIPow2(sh))
+LISmallInts(ws) == [i \in 1..Len(ws) |-> LISmallIntW(ws[i])]
+LIAllSmall(t, bound) == \A i \in 1..Len(t) : t[i] <= bound /\ -t[i] <= bound
+
 \* ---------------------------------------------------------------- gtx/matrix_query, three-valued
 \* "T" / "F" where the documented comparison is decided with a margin, "U" inside the guard band
 \* (there the rounding of length() / dot() may legitimately tip the comparison either way)
